@@ -7,7 +7,7 @@ def selEmpty : Selections → Bool
   | .nil => true
   | .cons _ _ => false
 
-def scalarLeafsStep (s : Schema) (_ : QueryDoc) (e : Event) : List RErr :=
+def scalarLeafsStep (s : SV) (_ : QueryDoc) (e : Event) : List RErr :=
   match e.p with
   | .field f _ (some fd) =>
     match s.type? fd.type.name with
